@@ -54,20 +54,20 @@ func (e Entry) String() string {
 
 // Disk is the per-run state of the seam.
 type Disk struct {
-	mu       sync.Mutex
-	Root     string // logs show paths relative to it as $ROOT/…
-	Log      []Entry
-	Muts     int
-	FreezeAt int  // freeze when the mutating-call counter reaches this (1-based); 0: never
-	Torn     int  // when the frozen call is a write: 0 nothing written, 1 one byte, 2 half, 3 all but one byte
-	Frozen   bool
-	FailAt   int           // inject FailErr at this mutating call (the call has no effect)
-	FailErr  error
-	ShortWriteAt int       // this mutating call, if a write, writes half and returns io.ErrShortWrite
-	tmpSeq   int
-	Quiet    bool          // no yields / sleeps (set-up phases)
-	CrashedAt string
-	seq      int
+	mu           sync.Mutex
+	Root         string // logs show paths relative to it as $ROOT/…
+	Log          []Entry
+	Muts         int
+	FreezeAt     int // freeze when the mutating-call counter reaches this (1-based); 0: never
+	Torn         int // when the frozen call is a write: 0 nothing written, 1 one byte, 2 half, 3 all but one byte
+	Frozen       bool
+	FailAt       int // inject FailErr at this mutating call (the call has no effect)
+	FailErr      error
+	ShortWriteAt int // this mutating call, if a write, writes half and returns io.ErrShortWrite
+	tmpSeq       int
+	Quiet        bool // no yields / sleeps (set-up phases)
+	CrashedAt    string
+	seq          int
 	// OnMutation runs after a mutating call took effect (before it returns to the caller).
 	OnMutation func(e Entry)
 	// OnCall runs at the start of every call (reads too) with the calling task's id.
@@ -259,12 +259,12 @@ const (
 	O_SYNC   = os.O_SYNC
 	O_TRUNC  = os.O_TRUNC
 
-	ModeDir        = os.ModeDir
-	ModeSymlink    = os.ModeSymlink
-	ModePerm       = os.ModePerm
-	ModeType       = os.ModeType
-	PathSeparator  = os.PathSeparator
-	DevNull        = os.DevNull
+	ModeDir       = os.ModeDir
+	ModeSymlink   = os.ModeSymlink
+	ModePerm      = os.ModePerm
+	ModeType      = os.ModeType
+	PathSeparator = os.PathSeparator
+	DevNull       = os.DevNull
 )
 
 // File mirrors *os.File.
@@ -669,24 +669,24 @@ func ReadFile(p string) ([]byte, error) {
 }
 func Readlink(p string) (string, error) { return os.Readlink(p) }
 
-func IsNotExist(err error) bool   { return os.IsNotExist(err) }
-func IsExist(err error) bool      { return os.IsExist(err) }
-func IsPermission(err error) bool { return os.IsPermission(err) }
-func Getenv(k string) string      { return os.Getenv(k) }
+func IsNotExist(err error) bool         { return os.IsNotExist(err) }
+func IsExist(err error) bool            { return os.IsExist(err) }
+func IsPermission(err error) bool       { return os.IsPermission(err) }
+func Getenv(k string) string            { return os.Getenv(k) }
 func LookupEnv(k string) (string, bool) { return os.LookupEnv(k) }
-func Setenv(k, v string) error    { return os.Setenv(k, v) }
-func Environ() []string           { return os.Environ() }
-func Getwd() (string, error)      { return os.Getwd() }
-func TempDir() string             { return os.TempDir() }
-func UserHomeDir() (string, error) { return os.UserHomeDir() }
-func Exit(code int)               { os.Exit(code) }
-func Getpid() int                 { return os.Getpid() }
-func Getuid() int                 { return os.Getuid() }
-func Getgid() int                 { return os.Getgid() }
-func Hostname() (string, error)   { return os.Hostname() }
-func DirFS(dir string) fs.FS      { return os.DirFS(dir) }
-func SameFile(a, b os.FileInfo) bool { return os.SameFile(a, b) }
-func Executable() (string, error) { return os.Executable() }
+func Setenv(k, v string) error          { return os.Setenv(k, v) }
+func Environ() []string                 { return os.Environ() }
+func Getwd() (string, error)            { return os.Getwd() }
+func TempDir() string                   { return os.TempDir() }
+func UserHomeDir() (string, error)      { return os.UserHomeDir() }
+func Exit(code int)                     { os.Exit(code) }
+func Getpid() int                       { return os.Getpid() }
+func Getuid() int                       { return os.Getuid() }
+func Getgid() int                       { return os.Getgid() }
+func Hostname() (string, error)         { return os.Hostname() }
+func DirFS(dir string) fs.FS            { return os.DirFS(dir) }
+func SameFile(a, b os.FileInfo) bool    { return os.SameFile(a, b) }
+func Executable() (string, error)       { return os.Executable() }
 
 var ENOSPC error = syscall.ENOSPC
 var EIO error = syscall.EIO
